@@ -15,7 +15,8 @@ K_NAME = ('K_alias (Alias.alias_construct / alias_init_model / alias_step / alia
           'outcome + full container state after every operation made through aliases, final reads through aliases, titles and data '
           'sources of to_dataframe(use_aliases=True))')
 RULE = ('alias maps of up to 6 entries over a model of 1-4 variables (one-to-one, many-to-one, chains of length 2-4, aliases of aliases, '
-        'self-maps, 2- and 3-cycles, aliases of undeclared variables, aliases named like a variable / like status), PREFERRED_NAMES subsets '
+        'self-maps, 2- and 3-cycles, aliases of undeclared variables, aliases named like a variable / status / an attribute or method of the '
+        'object (all to be refused by the constructor), add_variable of an alias name afterwards), PREFERRED_NAMES subsets '
         '(none, aliases, variables, ambiguous, duplicated), constructor keywords through aliases (incl. an alias and its target together), '
         'then C09 operation sequences (<= 25 ops, incl. the read-only hooks _ipython_key_completions_ / dir() / in / nbytes) made through '
         'randomly chosen aliases, cross-instance steps (siblings made by copy()/deepcopy/reindex() and operated on, the object replaced by its '
@@ -27,7 +28,7 @@ RULE = ('alias maps of up to 6 entries over a model of 1-4 variables (one-to-one
 TRUSTED = ['harness/container_common.py (case encoding, real-object driver, OCaml driver text, extraction via ExtrOcamlBasic/ExtrOcamlString)',
            'the twin is built by the harness: chain ends are computed by following the DECLARED ALIASES (independent of fsic)',
            'difflib.get_close_matches is an oracle: its answer is recorded from the run and handed to the model']
-ASSUMPTIONS = c09.ASSUMPTIONS + ['ALIASES is a dict of str -> str (no key twice); alias names are not core attribute names']
+ASSUMPTIONS = c09.ASSUMPTIONS + ['ALIASES is a dict of str -> str (no key twice)']
 EXHAUSTIVE = {'quick': False, 'thorough': False}
 CASE_TIMEOUT = 30
 HANDLES_TIMEOUT = True
@@ -35,7 +36,8 @@ SOURCES = ['extensions/common.py', 'core/containers.py', 'core/interfaces.py', '
 
 VARS = ['X', 'Y', 'Z', 'W']
 INTERNAL = '_V'                 # a variable whose name starts with '_': left out of to_dataframe() unless include_internal=True
-ATTR_NAMES = ('lags', 'check')  # attributes every model has: an alias named like one is the kept finding alias-named-like-attribute
+ATTR_NAMES = ('lags', 'check', 'names', 'values', 'solve', 'copy', 'aliases', 'ALIASES', 'span')
+# attributes / methods every aliased model has: an alias named like one must be refused by the constructor (fix 4e03fd0)
 ALIAS_NAMES = ['A', 'B', 'C', 'D', 'y', 'Ax']
 SPANS = [[10, 11, 12], [0, 1, 2, 3], [5], [2000, 2001, 2002, 2003, 2004], [3, 1, 2]]
 S = c09.S
@@ -129,7 +131,7 @@ def rand_aliases(rng, names):
     elif q < 0.12 and len(al) >= 3:  # 3-cycle
         a, b, c = al[0][0], al[1][0], al[2][0]
         al[0][1], al[1][1], al[2][1] = b, c, a
-    elif q < 0.30 and names:        # an alias named like a variable / like the status column (kept finding)
+    elif q < 0.18 and names:        # an alias named like a variable / like the status column: refused by the constructor (fix 4e03fd0)
         k = rng.choice(list(names) + ['status'])
         others = [x for x in names if x != k]
         if others and all(kk != k for kk, _ in al):
@@ -233,6 +235,7 @@ def rand_case(rng, max_ops):
     seen = set()
     case['ivs'] = [kv for kv in ivs if not (kv[0] in seen or seen.add(kv[0]))]       # Python keywords are unique
     pool = list(names) + (['Q'] if rng.random() < 0.3 else []) + ([rng.choice(ALIAS_NAMES)] if rng.random() < 0.15 else [])
+    # (an alias name in the pool: add_variable(<alias name>) after construction is the door the constructor cannot close)
     rows = len(names)
     for _ in range(rng.randint(1, max_ops)):
         op = c09.rand_op(rng, span, kind, rows, pool=pool, book=False)
@@ -293,7 +296,7 @@ def fixed_cases():
             for incl in (True, False):
                 mk(names=['X', '_V', 'Y'], aliases=[['A', 'X'], ['v', '_V'], ['y', 'Y']], preferred=['v'] if incl else ['A'],
                    ops=[['setattr', 'v', li(1, 2, 3)]], fkw={'status': st, 'iterations': it, 'include_internal': incl})
-    mk(aliases=[['lags', 'X']], ops=[['setattr', 'lags', S(['i', 5])], ['getattr', 'lags']], reads=[['a', 'lags'], ['g', ['n', 'lags']]])   # kept finding
+    mk(aliases=[['lags', 'X']], ops=[['setattr', 'lags', S(['i', 5])], ['getattr', 'lags']], reads=[['a', 'lags'], ['g', ['n', 'lags']]])   # refused since 4e03fd0
     # class hierarchies (the parent / the subclass is instantiated first), an alias read by attribute before copy()/reindex()
     cross = [['getattr', 'A'], ['getattr', 'y'], ['become', 'copy'], ['setattr', 'A', li(5, 6, 7)], ['getattr', 'B'], ['setitem', ['l', 'D', 11], S(['i', 1])],
              ['getattr', 'D'], ['become', 'reindex'], ['setitem', ['sl', 'C', 10, 11, None], li(8, 9)], ['getattr', 'A'], ['sib', ['setattr', 'B', li(0, 0, 0)]],
@@ -314,8 +317,18 @@ def fixed_cases():
     mk(aliases=[['A', 'A']], ops=[['setattr', 'A', S(['i', 1])]])
     mk(aliases=[['X', 'Y'], ['Y', 'X']])                                                      # 2-cycle (was a hang before adac991)
     mk(aliases=[['A', 'B'], ['B', 'C'], ['C', 'A'], ['D', 'X']])                              # 3-cycle
-    mk(aliases=[['Z', 'Y']], ops=[['setattr', 'Z', li(1, 2, 3)]], reads=[['g', ['n', 'Z']]])   # alias named like a variable (kept finding)
+    mk(aliases=[['Z', 'Y']], ops=[['setattr', 'Z', li(1, 2, 3)]], reads=[['g', ['n', 'Z']]])   # alias named like a variable: refused since 4e03fd0
     mk(aliases=[['status', 'X']])
+    for k in ('iterations', 'values', 'solve', 'copy', 'names', 'aliases', 'preferred_names', 'ALIASES', 'span', 'index', '_X', '_strict', 'strict'):
+        mk(aliases=[['A', 'Y'], [k, 'X']], ops=[['setattr', 'A', li(1, 2, 3)]])
+    mk(aliases=[['Z', 'A'], ['A', 'Y']], ops=[['setattr', 'A', li(1, 2, 3)]])                  # ... at the head of a chain
+    mk(aliases=[['B', 'Z'], ['Z', 'Y']], ops=[['setattr', 'B', li(1, 2, 3)]])                  # ... in the middle of a chain
+    mk(aliases=[['Z', 'Z'], ['A', 'Y']], ops=[['setattr', 'Z', li(1, 2, 3)]])                  # a self-map is no alias: accepted
+    mk(kind='linker', strict=False, aliases=[['submodels', 'X']])
+    mk(kind='linker', strict=False, aliases=[['sizes', 'X']])
+    # the door the constructor cannot close (kept finding): a variable added later under an alias name
+    mk(aliases=[['A', 'X']], ops=[['addvar', 'A', li(1, 2, 3), None], ['setattr', 'A', li(4, 5, 6)]], reads=[['g', ['n', 'A']]])
+    mk(aliases=[['A', 'X']], ops=[['addvar', 'A', li(1, 2, 3), None], ['setattr', 'values', S(['i', 5])]])
     mk(aliases=[['A', 'X'], ['B', 'X']], preferred=['A', 'B'])                                # ambiguous preferences
     mk(aliases=[['A', 'X']], preferred=['A', 'X'])
     mk(aliases=[['A', 'B'], ['B', 'X']], preferred=['X', 'A'])
@@ -487,6 +500,13 @@ def impl(case):
         return res
     t_obj, t_init = _build(case, False)
     res['twin_init'] = t_init
+    if t_obj is not None:
+        # which alias names are names of the object without aliases (variables, entries of its __dict__, attributes of its class)
+        # or of the mixin itself: recorded from the twin, which knows nothing of the aliases
+        from fsic.extensions import AliasMixin
+        res['classattrs'] = sorted({k for k, _ in al if hasattr(type(t_obj), k) or hasattr(AliasMixin, k)})
+        res['twin_has'] = sorted({k for k, _ in al if k in t_obj.__dict__['index'] or k in t_obj.__dict__ or k in res['classattrs']
+                                  or k in ('aliases', 'preferred_names')})
     if a_obj is None or t_obj is None:
         return res
     res['aliases'] = [[k, v] for k, v in (a_obj.__dict__.get('aliases') or {}).items()]
@@ -661,7 +681,7 @@ def correspond(cases, obs, tag, tier):
         if o.get('timeout') or o.get('init') == 'hang':
             continue
         hints = [s.get('hint') for s in o.get('steps', [])]
-        lines.append(cc.enc_case(c, hints))
+        lines.append(cc.enc_case(dict(c, classattrs=o.get('classattrs', [])), hints))
         idx.append(i)
     res, e = cc.run_model(lines)
     if e:
@@ -676,33 +696,28 @@ def correspond(cases, obs, tag, tier):
 
 def explain(case, obs):
     hints = [s.get('hint') for s in obs.get('steps', [])]
-    res, e = cc.run_model([cc.enc_case(case, hints)])
+    res, e = cc.run_model([cc.enc_case(dict(case, classattrs=obs.get('classattrs', [])), hints)])
     if e:
         return e
     return {'first_difference': _k_compare(case, res[0], obs), 'model': res[0]}
 
 
 def shadowed(case, obs=None):
-    """Alias names that are (or become) variable / column names: the class of the kept finding alias-named-like-variable.
-    With the observation: only add_variable calls that were ACCEPTED count."""
+    """Alias names under which a variable was added AFTER construction (add_variable takes the name literally and does not know
+    the aliases): the class of the kept finding add_variable|alias-name-accepted. With the observation: only add_variable calls that
+    were ACCEPTED count. (Alias names that clash at construction are refused by the constructor since fix 4e03fd0.)"""
     added = set()
     steps = (obs or {}).get('steps')
     for i, op in enumerate(case['ops']):
         if op[0] == 'addvar' and (steps is None or (i < len(steps) and steps[i]['out'] == 'ok')):
             added.add(op[1])
-    vs = set(case['names']) | {'status', 'iterations'} | added
-    return sorted(k for k, v in case['aliases'] if k != v and k in vs)
-
-
-def attr_shadowed(case):
-    """Alias names that are also attributes of every model: the class of the kept finding alias-named-like-attribute."""
-    return sorted(k for k, v in case['aliases'] if k != v and k in ATTR_NAMES)
+    return sorted(k for k, v in case['aliases'] if k != v and k in added)
 
 
 def guard(case, obs):
-    """Inside the class of the kept finding (an alias named like a variable) the values setter re-enters the alias-resolving
-    __setattr__ with the shadowed VARIABLE name; the model mirrors the shadowing for item / attribute access and for the export,
-    not for that re-entry: K is silent for such histories, the oracle speaks. Elsewhere K is compared (C09's own guard apart)."""
+    """After an ACCEPTED add_variable(<alias name>) (the kept finding) the values setter re-enters the alias-resolving __setattr__
+    with the shadowed VARIABLE name; the model mirrors the shadowing for item / attribute access and for the export, not for that
+    re-entry: K is silent for such histories, the oracle speaks. Elsewhere K is compared (C09's own guard apart)."""
     if shadowed(case, obs) and (case.get('rx') is not None
                            or any((op[0] in ('setattr', 'addattr') and op[1] == 'values') or op[0] in cc.CROSS_OPS for op in case['ops'])):
         return True          # (reindex() too walks `index` through the alias-resolving __getitem__)
@@ -715,46 +730,34 @@ def _ambiguous(case):
     return len(set(ends)) != len(ends)
 
 
-def _shadowing(case, cols):
-    """Alias names that are also exported column names (the class of the kept finding)."""
-    return [k for k, v in case['aliases'] if k != v and k in cols]
-
-
 def oracle(case, obs):
-    """The failures of _oracle, with exactly the classes of the two kept findings folded into their signatures: a failure is
-    attributed to `alias-named-like-variable` only if the failing step goes through a shadowed name (or its variable) or is an
-    operation that walks ALL variables through self[...] (values, nbytes, dir, copies, reindex, export, solve); to
-    `alias-named-like-attribute` only if it is an attribute READ of such an alias. Everything else stays what it is."""
+    """The failures of _oracle, with exactly the class of the kept finding folded into its signature: a failure is attributed to
+    `add_variable|alias-name-accepted` only if a variable was added under an alias name and the failing step goes through that name
+    (or its variable) or is an operation that walks ALL variables through self[...] (values, nbytes, dir, copies, reindex, export,
+    solve). Everything else stays what it is."""
     al = case['aliases']
     sh = set(shadowed(case, obs))
     related = sh | {chain_end(al, k) for k in sh}
-    ash = set(attr_shadowed(case))
-    keep, folded, afolded = [], [], []
+    keep, folded = [], []
     for f in _oracle(case, obs):
         touch = f.pop('touch', None)
-        if f['sig'].startswith('C18|__init__|does-not'):
+        if f['sig'].startswith('C18|__init__|'):
             keep.append(f)
-        elif ash and f.get('attr_read') and touch and set(touch) & ash:
-            afolded.append(f)
         elif sh and (touch == 'walk' or (touch and set(touch) & related)):
             folded.append(f)
         else:
             keep.append(f)
-        f.pop('attr_read', None)
     if folded:
-        keep.append({'sig': 'C18|alias-named-like-variable', 'what': 'alias(es) %s are also variable / column names: %s' % (
-            sorted(sh), '; '.join(f['what'] for f in folded)[:400])})
-    if afolded:
-        keep.append({'sig': 'C18|alias-named-like-attribute', 'what': 'alias(es) %s are also attributes of the object: %s' % (
-            sorted(ash), '; '.join(f['what'] for f in afolded)[:400])})
+        keep.append({'sig': 'C18|add_variable|alias-name-accepted', 'what': 'add_variable(%s) was accepted although that is an alias (of %s): %s' % (
+            sorted(sh), sorted(chain_end(al, k) for k in sh), '; '.join(f['what'] for f in folded)[:400])})
     return keep
 
 
 def _oracle(case, obs):
     fails = []
 
-    def bad(sig, what, touch=None, attr_read=False):
-        fails.append({'sig': 'C18|' + sig, 'what': what, 'touch': touch, 'attr_read': attr_read})
+    def bad(sig, what, touch=None):
+        fails.append({'sig': 'C18|' + sig, 'what': what, 'touch': touch})
 
     def names_of_op(op):
         ns = set(c09._target_names(op))
@@ -776,6 +779,14 @@ def _oracle(case, obs):
         if obs['init'] == 'ok':
             bad('PREFERRED_NAMES|ambiguity-accepted', 'PREFERRED_NAMES %s name one variable twice under ALIASES %s but the constructor '
                 'accepted them' % (case['preferred'], dict(al)))
+        return fails
+    # ---- an alias named like a variable or like an attribute of the object cannot be "indistinguishable from the variable it
+    #      names" (reads and writes through it go different ways): the constructor must refuse it
+    clash = sorted(k for k, _ in al if chain_end(al, k) != k and k in obs.get('twin_has', []))
+    if clash and obs.get('twin_init') == 'ok':
+        if obs['init'] != 'InitialisationError':
+            bad('__init__|clashing-alias-accepted', 'ALIASES %s: %s are also names of variables / attributes of the object, the constructor gave %s' % (
+                dict(al), clash, obs['init']))
         return fails
     ends = [chain_end(al, k) for k, _ in case['ivs']]
     if len(set(ends)) != len(ends):
@@ -802,11 +813,10 @@ def _oracle(case, obs):
             break
         if op[0] in cc.CROSS_OPS:
             ia, it = stp.get('aux', {}), stp.get('twin_aux', {})
-            if op[0] == 'getattr' and (op[1] in stp['st']['adict'] or chain_end(al, op[1]) in stp['st']['adict']) \
-                    and op[1] not in attr_shadowed(case):
+            if op[0] == 'getattr' and (op[1] in stp['st']['adict'] or chain_end(al, op[1]) in stp['st']['adict']):
                 ia = it = {}                # a plain attribute of that name was made by the history itself: not a read of a variable
             if ia != it:
-                bad('cross-instance|differs-from-twin', 'op %d %s: %s, on the twin %s' % (i, json.dumps(op)[:100], str(ia)[:100], str(it)[:100]), touch=(names_of_op(op) if op[0] == 'getattr' else 'walk'), attr_read=(op[0] == 'getattr'))
+                bad('cross-instance|differs-from-twin', 'op %d %s: %s, on the twin %s' % (i, json.dumps(op)[:100], str(ia)[:100], str(it)[:100]), touch=(names_of_op(op) if op[0] == 'getattr' else 'walk'))
             elif stp.get('sib_diff'):
                 bad('cross-instance|differs-from-twin', 'op %d %s: the other instance differs from the twin\'s: %s' % (i, json.dumps(op)[:100], stp['sib_diff'][:160]), touch='walk')
             elif not stp.get('aliases_kept', True):
@@ -836,10 +846,10 @@ def _oracle(case, obs):
     # ---- reads
     final = obs['steps'][-1]['st'] if obs['steps'] else obs['st0']
     for r, (a, t) in zip(case.get('reads', []), obs.get('reads', [])):
-        if r[0] == 'a' and (chain_end(al, r[1]) in final['adict'] or r[1] in final['adict']) and r[1] not in attr_shadowed(case):
+        if r[0] == 'a' and (chain_end(al, r[1]) in final['adict'] or r[1] in final['adict']):
             continue            # a plain attribute of that name was made by the history itself: not a read of a variable
         if a != t:
-            bad('read|differs-from-twin', 'read %s gave %s, the twin %s' % (r, str(a)[:80], str(t)[:80]), touch={r[1] if r[0] == 'a' else (r[1][1] if len(r[1]) > 1 else '')} | {chain_end(al, r[1] if r[0] == 'a' else (r[1][1] if len(r[1]) > 1 else ''))}, attr_read=(r[0] == 'a'))
+            bad('read|differs-from-twin', 'read %s gave %s, the twin %s' % (r, str(a)[:80], str(t)[:80]), touch={r[1] if r[0] == 'a' else (r[1][1] if len(r[1]) > 1 else '')} | {chain_end(al, r[1] if r[0] == 'a' else (r[1][1] if len(r[1]) > 1 else ''))})
             break
     if 'reindex' in obs and 'copy' not in final['adict']:
         a, t = obs['reindex'], obs.get('twin_reindex')
@@ -864,8 +874,7 @@ def _oracle(case, obs):
     sv = obs.get('solve')
     if sv and (sv['outs'][0] != sv['outs'][1] or sv['diff']):
         bad('solve|differs-from-twin', 'solve() of %s[t] = 2 * %s[t] + 1: %s, state difference %s' % (case['solve'][0], case['solve'][1], sv['outs'], sv['diff']),
-            touch=(set(case['solve']) if set(case['solve']) & set(attr_shadowed(case)) else 'walk'),
-            attr_read=bool(set(case['solve']) & set(attr_shadowed(case))))
+            touch='walk')
     # ---- export
     fa, fn, ft = obs.get('frame_alias'), obs.get('frame_noalias'), obs.get('frame_twin')
     if isinstance(ft, str):
